@@ -399,6 +399,12 @@ pub fn judge(case: &Case, l: &mut Local) {
         }
         closed &= d3(&c.at_front().point(), &c.at_back().point()) <= 1e-6;
     }
+    // the same loops walked station by station through the curve's iterator: every vertex once, in order
+    let walked = curves.iter().all(|c| {
+        let st: Vec<Point3> = c.iter().map(|s| s.point()).collect();
+        st.len() == c.count() && st.iter().zip(c.points().iter()).all(|(a, b)| d3(a, b) == 0.0)
+    });
+    l.check("walking a section curve by its iterator visits every vertex once, in order", "", walked, mk, || format!("{:?} stations for {:?} vertices", curves.iter().map(|c| c.iter().count()).collect::<Vec<_>>(), curves.iter().map(|c| c.count()).collect::<Vec<_>>()));
     l.check("every section vertex lies on the plane", "", on_plane, mk, String::new);
     l.check("every section vertex lies on the mesh surface", "", on_surface, mk, String::new);
     l.check("consecutive section vertices are joined across one face", "", share_face, mk, String::new);
